@@ -6,7 +6,6 @@ V = os.path.dirname(os.path.dirname(os.path.abspath(__file__)))
 
 NA = {
  'C04': 'Taylor coefficients of an amplification factor / RK orders are numeric values of qmat tableaux; no source shape implies them (DESIGN.md §5)',
- 'C05': 'exactness of nodes/weights/Q/S is a property of coefficients generated by the external qmat package at run time; the structural crumbs (flag tables, zero padding) are checked under C01.R3/C02.R5 (DESIGN.md §5)',
  'C17': 'identities between spectral operator matrices over N and intervals are numeric (DESIGN.md §5)',
 }
 UNDER = 'static checker for this property not armed yet in this round (design in DESIGN.md §4)'
@@ -21,6 +20,9 @@ ARMED = {
  'C03': ('defect signature and norm dispatch of every compute_residual, send->receive->residual->decision order in IT_CHECK by CFG dominance, boolean normal form of the convergence predicate, who-may-write tables for status.iter/done, logged fields = deciding fields',
          'not decided: the value of the residual, norm axioms. One defect found by the rule was repaired (fix d42d667).',
          'CFG dominance + who-may-write tables + boolean normal forms over the AST', '4 C03'),
+ 'C05': ('ONLY the structural clauses: the qmat generator is requested for exactly (num_nodes, node_type, quad_type, tleft, tright) and bad arguments raise; end-point flag tables and the automatic collocation update; zero-padded (M+1)x(M+1) Q and S with the generator Q / parent-class S in [1:,1:] and nothing else stored, private copies of nodes/weights, no later in-place store anywhere in the library; node distances',
+         'NOT decided (numeric, produced by the external qmat package at run time): monotone nodes inside the interval, exactness of weights/Q/S on polynomials, S = row differences of Q inside qmat, affine covariance.',
+         'local-inlining normal form of CollBase.__init__, membership-table extraction, who-may-write scan over the library', '10 C05'),
  'C06': ('def-use chain of the carried value and of the block start time in run() of all three controllers, agreement of the activity predicate at all 8 sites, kept-steps slice, scale-unaware-tolerance pattern (7 known-finding sites F3)',
          'not decided: the float arithmetic itself (smallest N up to rounding), behaviour under histories of restarts. F3 (dt=0.1, Tend=10 -> 101 steps) is a recorded known finding.',
          'reaching-definition tables and guard sets on the controller run() CFGs; contradiction pattern for absolute eps thresholds', '4 C06'),
